@@ -62,6 +62,41 @@ pub fn run(input: &mut dyn BufRead, out: &mut dyn Write, _args: &[String]) -> R 
                     .collect();
                 json!({"id": id, "out": res})
             }
+            "akamai" => {
+                // one-shot extraction over `bytes`, then incremental extraction over each partition in `parts` (lists of chunk lengths)
+                use huginn_net_http::akamai_extractor::extract_akamai_fingerprint_from_bytes;
+                use huginn_net_http::http2_fingerprint_extractor::Http2FingerprintExtractor;
+                let b = blob(&v["bytes"]);
+                let one = match guarded(|| extract_akamai_fingerprint_from_bytes(&b)) {
+                    Ok(Some(f)) => json!({"r": "some", "fp": f.fingerprint, "hash": f.hash}),
+                    Ok(None) => json!({"r": "none"}),
+                    Err(e) => json!({"r": "panic", "e": e}),
+                };
+                let parts: Vec<Value> = arr(&v["parts"])
+                    .iter()
+                    .map(|part| {
+                        let mut ex = Http2FingerprintExtractor::new();
+                        let mut pos = 0usize;
+                        let outs: Vec<Value> = arr(part)
+                            .iter()
+                            .map(|n| {
+                                let n = u(n) as usize;
+                                let chunk = &b[pos..pos + n];
+                                pos += n;
+                                match guarded(|| ex.add_bytes(chunk)) {
+                                    Ok(Ok(Some(f))) => json!({"r": "some", "fp": f.fingerprint, "hash": f.hash}),
+                                    Ok(Ok(None)) => json!({"r": "none"}),
+                                    Ok(Err(e)) => json!({"r": "err", "e": e.to_string()}),
+                                    Err(e) => json!({"r": "panic", "e": e}),
+                                }
+                            })
+                            .collect();
+                        let after = ex.get_fingerprint().map(|f| f.fingerprint.clone());
+                        json!({"outs": outs, "final": after})
+                    })
+                    .collect();
+                json!({"id": id, "one": one, "parts": parts})
+            }
             "packets" => {
                 let cap = v["cap"].as_u64().unwrap_or(1000) as usize;
                 let mut flows: TtlCache<FlowKey, TcpFlow> = TtlCache::new(cap);
